@@ -288,7 +288,9 @@ def start_model(kind):
     of the model they are given IN PLACE (known C06 defect), so models derived from one shared start
     object influence each other (observed: KeyError 'TRANSIT1' in update_cmt depending on what ran before)."""
     from pharmpy.modeling import create_basic_pk_model, load_example_model
-    return load_example_model('pheno') if kind == 'pheno' else create_basic_pk_model('oral')
+    if kind in ('pheno', 'moxo'):
+        return load_example_model(kind)
+    return create_basic_pk_model('oral')
 
 
 def observe(spec, impl=None, perturb=None):
@@ -364,6 +366,19 @@ def exhaustive_specs(maxlen):
         for k in range(1, maxlen + 1):
             for seq in itertools.product(alphabet, repeat=k):
                 out.append({'start': start, 'seq': list(seq)})
+    return out
+
+
+def category_pairs():
+    """All ordered pairs of requests within one feature category (the setters' own from->to tables)."""
+    cats = [ABS, ELS, ['LAG_ON', 'LAG_OFF'], ['PER:0', 'PER:1', 'PER:2', 'PER_ADD', 'PER_REM'],
+            ['TR:0:K', 'TR:1:K', 'TR:2:K', 'TR:3:K', 'TR:1:N', 'TR:2:N', 'TR:4:N']]
+    out = []
+    for start in ('oral', 'pheno'):
+        for cat in cats:
+            for a in cat:
+                for b in cat:
+                    out.append({'start': start, 'seq': [a, b]})
     return out
 
 
@@ -497,7 +512,8 @@ def run(ctx):
     specs = [s['spec'] if 'spec' in s else s for s in specs]
     if ctx.tier == 'quick':
         specs += exhaustive_specs(1)
-        specs += [gen_spec(ctx.rng) for _ in range(260)]
+        specs += category_pairs()
+        specs += [gen_spec(ctx.rng) for _ in range(220)]
     else:
         specs += exhaustive_specs(2)
         specs += [gen_spec(ctx.rng) for _ in range(3000)]
